@@ -14,7 +14,8 @@ import Exetera.Model.Basic
     says that no subscript was negative either.  (Slices keep Python's clamping and negative-bound semantics: a slice
     never raises.)
   * errors are values: `bindE` sequences, `raise IndexError` is `.error (.oob …)`, `raise ValueError` is
-    `.error (.valueError …)`.
+    `.error (.valueError …)`, a failed `assert` is `.error (.other "AssertionError")`.
+  * a CONSTANT negative subscript `a[-c]` is the element `len(a) - c` (`idxNegE`), checked like any other subscript.
 -/
 namespace Exetera.PyRt
 
@@ -52,9 +53,21 @@ theorem setIdxE_of_lt {α} {xs : List α} {i : Nat} (v : α) (site : String) (h 
     setIdxE xs (i : Int) v site = .ok (xs.set i v) := by
   simp [setIdxE, setE, h]
 
+/-- `xs[-c]` for a constant `c > 0`: the element `len(xs) - c` (IndexError when the array has fewer than `c` entries) -/
+def idxNegE {α} (xs : List α) (c : Nat) (site : String) : Except Err α :=
+  if c ≤ xs.length then getE xs (xs.length - c) site else .error (.oob site)
+
+/-- `xs[-c] = v` for a constant `c > 0` -/
+def setIdxNegE {α} (xs : List α) (c : Nat) (v : α) (site : String) : Except Err (List α) :=
+  if c ≤ xs.length then setE xs (xs.length - c) v site else .error (.oob site)
+
 /-- read of a local that Python may not have bound yet (`UnboundLocalError`); `d` is the definedness flag -/
 def readDefE {α} (d : Bool) (v : α) (_name : String) : Except Err α :=
   if d then .ok v else .error (.other "UnboundLocalError")
+
+/-- value of an optional scalar parameter (`x=None`); using it while it is None is a TypeError -/
+def readOptE {α} (present : Bool) (v : α) (_name : String) : Except Err α :=
+  if present then .ok v else .error (.typeError "NoneType")
 
 /-- `np.zeros(n, dtype)` (dtype is not modelled) -/
 def npZeros (n : Int) : Except Err (List Int) :=
@@ -110,6 +123,9 @@ def floorDivE (a b : Int) : Except Err Int :=
 
 def floorModE (a b : Int) : Except Err Int :=
   if b = 0 then .error (.other "ZeroDivisionError") else .ok (Int.fmod a b)
+
+/-- `np.int8(x)`: the value as a signed byte (two's complement wrap-around); the identity on -128 … 127 -/
+def pyInt8 (x : Int) : Int := Int.fmod (x + 128) 256 - 128
 
 /-- `a.argmin()` / `a.argmax()`: position of the FIRST minimum / maximum; ValueError on an empty array -/
 def argBestFrom (better : Int → Int → Bool) : List Int → (i : Nat) → (best : Int) → (bestIdx : Nat) → Nat
@@ -198,6 +214,10 @@ def Val.asBArr? : Val → Option (List Bool)
   | _ => Option.none
 def Val.asArr2? : Val → Option (List (List Int))
   | .arr2 a => some a
+  | _ => Option.none
+def Val.asOptInt? : Val → Option (Option Int)
+  | .int i => some (some i)
+  | .none => some Option.none
   | _ => Option.none
 def Val.asOptArr? : Val → Option (Option (List Int))
   | .arr a => some (some a)
